@@ -87,6 +87,7 @@ def _flags_to_list(raw: str) -> T.List[str]:
     curr = ''
     escape = False
     in_string = False
+    quote = ''
     for i in raw:
         if escape:
             # If the current char is not a quote, the '\' is probably important
@@ -96,8 +97,10 @@ def _flags_to_list(raw: str) -> T.List[str]:
             escape = False
         elif i == '\\':
             escape = True
-        elif i in {'"', "'"}:
+        elif i in {'"', "'"} and (not in_string or i == quote):
+            # Only the character that opened a string closes it
             in_string = not in_string
+            quote = i
         elif i in {' ', '\n'}:
             if in_string:
                 curr += i
